@@ -223,6 +223,9 @@ def gen_spec(rng, pairing=None, small=False, allow_tiering=False,
         spec["delay"] = None
     if timestep:
         spec["timestep"] = timestep
+    if rng.random() < 0.3:
+        # the configuration need not list its observations chronologically
+        rng.shuffle(spec["observations"])
     if spec["delay"] and "prob" in spec["delay"] and not allow_k4:
         # K4 (known finding): DelayModel('normal') indexes an empty array for a
         # runtime of 0; keep every runtime >= 1 on every machine in this stream
